@@ -251,6 +251,11 @@ func (e *lcEnv) restart(mode string, how string, reps int) {
 			}
 		}
 		e.evals += 3
+		if bad+stoppedLater+noFire >= 6 { // broken beyond doubt: do not spend 2 s per remaining iteration
+			cancel1()
+			cancel2()
+			break
+		}
 		cancel1()
 		s.Stop()
 		lastCancel = cancel2
